@@ -39,7 +39,7 @@ ASSUMPTIONS = [
 ]
 REQUIRED = {"all": ["figures", "saved_files", "getfig_returns", "phase_markers_checked", "uversky_markers_checked",
                     "multi_marker_figures", "labels_checked", "limits_below_one", "region_points_checked",
-                    "linear_bar_figures", "long_linear_plots", "net_negative_uversky_saves", "complexity_bar_figures"]}
+                    "linear_bar_figures", "long_linear_plots", "net_negative_uversky_saves", "complexity_bar_figures", "numpy_coordinate_arguments"]}
 NFIG = {"quick": 640, "thorough": 4000}
 NMAX = {"quick": 40, "thorough": 90}
 LIMS = [1, 1, 0.5, 0.8, 2]
@@ -341,12 +341,22 @@ def judge_figure(case, rep, S):
         fn = getattr(plots, pname)
         if pname == "show_multiple_phasePlot" and label:
             lab_kw = {"label": label}
+        form = rng.random()
         if family == "mod_single":
             pos = [xs[0], ys[0]]
+            if form < 0.3:
+                pos = [np.float64(xs[0]), np.float64(ys[0])]
+                rep.cnt("numpy_coordinate_arguments")
         elif family == "mod_multi":
             pos = [xs, ys]
+            if form < 0.2:
+                pos = [tuple(xs), tuple(ys)]
+                rep.cnt("tuple_coordinate_arguments")
+            elif form < 0.4:
+                pos = [np.array(xs), np.array(ys)]
+                rep.cnt("numpy_coordinate_arguments")
         else:
-            pos = [objs]
+            pos = [objs] if form < 0.7 else [tuple(objs)]
         if save:
             snap = run_entry(rep, S, pname, lambda: fn(*pos, path, saveFormat=fmt, **lab_kw, **kw), path)
         else:
